@@ -29,34 +29,31 @@ known("C01", r"^asm_forms\|\[?pcr\]?/-/[^|]*\|(C01:decodes|C02:size|C12:\w+)\|\[
       "numeric n,PCR / [n,PCR] operands: 0 is encoded as ,X; 128..255 and negative values use an 8-bit field that cannot hold "
       "them; 4-digit hex offsets emit one byte; negative values reserve too few bytes",
       {"asm": [" LDA 200,PCR"]}, also=("C02", "C03", "C12"))
-known("C01", r"^asm_forms\|imm/-/neg\d/\w+\|(C01:decodes|C12:\w+)\|imm:\w+:(meaning:imm16|malformed|accepted-invalid)",
+known("C01", r"^asm_forms\|imm/-/neg\d/\w+\|C01:decodes\|imm:\w+:meaning:imm16:val=-",
       "a negative literal as 16-bit immediate is encoded as its 8-bit two's complement, zero extended (LDX #-1 -> 8E 00 FF)",
-      {"asm": [" LDX #-1"]}, also=("C12",))
+      {"asm": [" LDX #-1"]})
 known("C01", r"^asm_forms\|imm/-/[^|]*/equ\|(C01:decodes|C02:size|C12:\w+)\|imm:\w+:(undecodable:truncated operand|size=\d,len=\d|malformed)",
       "16-bit immediate whose operand is an EQU symbol below $100 emits one operand byte (LDX #V, V EQU 5 -> 8E 05)",
       {"asm": ["V EQU 5", " LDX #V"]}, also=("C02", "C04", "C12"))
 known("C01", r"^asm_forms\|mem>/[^|]*\|C01:decodes\|mem>:\w+:meaning:dir",
       "the > prefix (force extended) is ignored when the value is spelled with 8 bits or comes from a small EQU (LDA >$10 -> 96 10)",
       {"asm": [" LDA >$10"]})
-known("C12", r"^asm_forms\|imm/-/[^|]*\|C12:(rejected|wellformed)\|imm:\w+:(accepted-invalid|malformed)",
-      "an immediate value that does not fit the register width is accepted (LDA #256 -> 86 01 00; LDA #-129 -> 86 FF 7F)",
+known("C12", r"^asm_forms\|imm/-/[^|]*\|C12:(rejected|wellformed)\|imm:\w+:(accepted-invalid|malformed):val=[^:]*:inv=(hi8|lo8):",
+      "an immediate value that does not fit an 8-bit register is accepted (LDA #256 -> 86 01 00; LDA #-129 -> 86 FF 7F)",
       {"asm": [" LDA #256"]}, also=("C01",))
-known("C12", r"^asm_forms\|mem</[^|]*\|C12:(rejected|wellformed)\|mem<:\w+:(accepted-invalid|malformed)",
-      "<n with n above $FF is accepted and emits a 16-bit address behind a direct-mode opcode (LDA <$1234 -> 96 12 34)",
+known("C12", r"^asm_forms\|mem</[^|]*\|C12:(rejected|wellformed)\|mem<:\w+:(accepted-invalid|malformed):val=[^:]*:inv=(hi8|negaddr):",
+      "<n with n above $FF (or negative) is accepted and emits a 16-bit address behind a direct-mode opcode (LDA <$1234 -> 96 12 34)",
       {"asm": [" LDA <$1234"]})
-known("C12", r"^asm_forms\|(mem|mem>|ind\[\]|idxc|\[idxc\])/[^|]*/neg\d/[^|]*\|(C12:(rejected|wellformed)|C01:decodes|C02:size)\|",
-      "negative literals as addresses / out-of-range negative index offsets are accepted and encoded with the wrong width or value",
-      {"asm": [" LDA -1"]}, also=("C01", "C02"))
-known("C12", r"^asm_forms\|(mem|mem>|mem<|ind\[\]|idxc|\[idxc\]|imm)/[^|]*/(dec5|hex4|bin16)/[^|]*\|C12:(rejected|wellformed)\|",
-      "values above the operand's range are accepted (e.g. index offsets / addresses from 5-digit decimals beyond 65535 are caught, "
-      "but 16-bit values in 8-bit positions are not)",
-      {"asm": [" LDA <65535"]})
-known("C12", r"^asm_forms\|[^|]*/(B[A-Z]{2}|LB[A-Z]{2,3})(/equ)?\|C12:(rejected|wellformed)\|[^|]*:(accepted-invalid|malformed)",
+known("C12", r"^asm_forms\|(mem|mem>|ind\[\])/[^|]*/neg\d/[^|]*\|C12:(rejected|wellformed)\|[^|]*:(accepted-invalid|malformed):val=-[^:]*:inv=negaddr:",
+      "negative literals as addresses (LDA -1, LDA >-1, LDA [-1]) are accepted", {"asm": [" LDA -1"]})
+known("C12", r"^asm_forms\|[^|]*/(B[A-Z]{2}|LB[A-Z]{2,3})(/equ)?\|C12:(rejected|wellformed)\|[^|]*:(B[A-Z]{2}|LB[A-Z]{2,3}):(accepted-invalid|malformed):val=[^:]*:inv=(nomode|form):",
       "a branch instruction accepts any operand text (numbers, indexed forms, brackets): it is encoded as a branch to statement 0",
       {"asm": [" BRA 5", " NOP"]}, also=("C03",))
-
+known("C12", r"^asm_forms\|bad/[^|]*\|C12:(rejected|wellformed)\|bad/[^:]+:\w+:(accepted-invalid|malformed):val=[^:]*:inv=form:",
+      "an unknown, missing or malformed index register (5,Z  ,W  ,X+++  A,  5,PC) is not rejected: the operand is encoded as if it "
+      "named X / had no offset", {"asm": [" LDA 5,Z"]})
 # ------------------------------------------------------------------------------------------------ labels below $100 / layout
-known("C02", r"^asm_layout\|abs/[^|]*\|(C02:size|C02:chain|C01:label-operand|C02:symbol-value)\|abs/[^:]+:\w+:\w+:.*",
+known("C02", r"^asm_layout\|abs/[^|]*\|(C02:size|C02:chain|C01:label-operand|C02:symbol-value)\|abs/[^:]+:\w+:\w+:.*:T=<256$",
       "a label or address operand below $100 is emitted in one byte although two (or three) bytes are reserved: sizes, later "
       "addresses and symbol values disagree with the image (JMP L with L < $100)",
       {"asm": ["L NOP", " JMP L"]}, also=("C01", "C04", "C12", "C18"))
@@ -66,6 +63,12 @@ known("C02", r"^asm_layout\|placement/(code-before-org|second-org)\|C02:rejected
 known("C02", r"^asm_layout\|placement/org-low\|C02:rejected-or-contiguous\|",
       "origin below $100: label operands are emitted in one byte, so the image no longer matches the listing addresses",
       {"asm": [" ORG 0", "T NOP", " LDX #T", " JMP T"]})
+known("C02", r"^asm_layout\|symbols/undef/(fcb|fdb|rmb|org)(/other-symbols)?\|C02:rejected\|symbols/undef/(fcb|fdb|rmb|org):accepted$",
+      "the operands of FCB / FDB / RMB / ORG are never resolved against the symbol table: a name that is never defined is "
+      "silently assembled as 0 instead of being rejected", {"asm": [" ORG $3000", " FDB UNDEF", " RTS"]}, also=("C05",))
+known("C02", r"^asm_layout\|symbols/undef/equ(/other-symbols)?\|C02:rejected\|symbols/undef/equ:accepted$",
+      "V EQU UNDEF with an undefined name is accepted as long as V itself is not used",
+      {"asm": [" ORG $3000", "V EQU UNDEF", " RTS"]})
 known("C02", r"^asm_data\|RMB/size/dec5\|(C05:rmb-reserves-n|C02:next-address)\|RMB:(size|next)=",
       "RMB with a count above 65535 is accepted and reserves nothing",
       {"asm": [" RMB 70009", " NOP"]}, also=("C05",))
@@ -74,7 +77,7 @@ known("C02", r"^asm_data\|RMB/size/dec5\|(C05:rmb-reserves-n|C02:next-address)\|
 known("C03", r"^asm_layout\|rel8/\w+/(fwd|bwd)/\w+\|C03:short-range-rejected\|rel:\w+:\w+:out-of-range-accepted",
       "a short branch whose target is outside -128..+127 is accepted and the displacement wraps",
       {"asm": [" BRA T", " RMB 200", "T NOP"]}, also=("C12",))
-known("C03", r"^asm_layout\|\[?pcr\]?/\w+/bwd/[^|]*\|C03:target\|[^:]+:bwd:wrong-target:pcr8",
+known("C03", r"^asm_layout\|\[?pcr\]?/\w+/bwd/[^|]*\|C03:target\|[^:]+:bwd:wrong-target:pcr8:n=(120\.\.124|125\.\.127)$",
       "backward label,PCR at distance -129..-131: the size estimate forgets the statement's own bytes, the 8-bit form is chosen and "
       "cannot hold the displacement",
       {"asm": ["T NOP", " RMB 125", " LDA T,PCR"]}, also=("C01", "C04"))
@@ -119,16 +122,20 @@ known("C04", r"^asm_expr\|[^|]*\|(C04:accepted|C04:rejection-justified)\|[^|]*:r
 known("C05", r"^asm_data\|F[CD]B/\d+[^|]*\|C05:rejects-unfit\|F[CD]B/\d+[^:]*:accepted-unfit",
       "FCB/FDB accept values that do not fit the directive's width (FCB 256 -> 10, FCB 1,256 emits three bytes)",
       {"asm": [" FCB 256"]}, also=("C12",))
-known("C05", r"^asm_data\|F[CD]B/\d+[^|]*\|(C05:bytes|C02:size)\|F[CD]B/\d+[^:]*:(value-mismatch|count=\d+,want=\d+|size=\d+,len=\d+)",
-      "FCB/FDB: a single negative value loses its sign, negative list elements are rendered at the wrong width, EQU symbols are not "
-      "resolved (emit 0)", {"asm": [" FCB -1"]}, also=("C04", "C02"))
+known("C05", r"^asm_data\|F[CD]B/\d+[^|]*\|(C05:bytes|C02:size)\|F[CD]B/\d+[^:]*:(value-mismatch|count=\d+,want=\d+|size=\d+,len=\d+):vals=[^|]*-\d+\.\.-\d+",
+      "FCB/FDB: a single negative value loses its sign, negative list elements are rendered at the wrong width (only lists with "
+      "a negative element)", {"asm": [" FCB -1"]}, also=("C04", "C02"))
+known("C05", r"^asm_data\|F[CD]B/\d+/[^|]*equ[^|]*\|(C05:bytes|C02:size)\|F[CD]B/\d+/equ[^:]*:(value-mismatch|count=\d+,want=\d+|size=\d+,len=\d+)",
+      "FCB/FDB: EQU symbols as elements are not resolved (emit 0)", {"asm": ["V EQU 5", " FCB V"]}, also=("C04", "C02"))
 known("C05", r"^asm_data\|F[CD]B/\d+[^|]*\|(C13:no-internal-error|C05:accepted)\|F[CD]B/[^:]*:(escape:\w+|rejected:\w+)",
       "FCB/FDB lists with a value wider than the directive raise IndexError / ValueTypeError instead of a diagnostic",
       {"asm": [" FCB 1,256"]}, also=("C13",))
-known("C05", r"^asm_data\|FCC/[^|]*\|(C05:fcc-bytes|C02:size|C05:accepted|C13:no-internal-error)\|",
-      "FCC does not emit exactly the characters between the delimiters: runs of spaces collapse, ';' is dropped, characters outside "
-      "the operand class get a space in front, characters below $10 emit one hex digit, some strings are rejected or crash",
-      {"asm": [" FCC \"A  B\""]}, also=("C02", "C13"))
+known("C05", r"^asm_data\|FCC/[^|]*\|(C05:fcc-bytes|C02:size|C05:accepted|C13:no-internal-error)\|[^|]*chars=(space(,[a-z,]*)?|([a-z,]*,)?space|[a-z,]*(semicolon|punct)[a-z,]*)$",
+      "FCC does not emit exactly the characters between the delimiters when the string starts or ends with a space (stripped), "
+      "contains ';' (dropped) or a punctuation character (a space is put in front / the string is rejected or crashes)",
+      {"asm": [" FCC \"A;B\""]}, also=("C02", "C13"))
+known("C05", r"^asm_data\|FCC/concrete/\d+\|(C05:fcc-bytes|C05:accepted|C13:no-internal-error)\|FCC-concrete:\w+:'(x;y|tab\\there|~\|\{\})'",
+      "same FCC defect on concrete strings with ';', a tab or punctuation", {"asm": [" FCC \"x;y\""]}, also=("C13",))
 known("C13", r"^asm_data\|empty/(FCB|FDB|FCC|RMB|ORG|EQU)\|C13:no-internal-error\|empty/\w+:escape:\w+",
       "a data directive without operand raises ValueTypeError / IndexError instead of a diagnostic", {"asm": [" FCB"]}, also=("C05",))
 known("C05", r"^asm_data\|silent/END\|(C13:no-internal-error|C05:accepted)\|silent/END:(escape:\w+|rejected:\w+)",
@@ -142,13 +149,17 @@ known("C13", r"^asm_layout\|abs/LDA,X/[^|]*\|C13:no-internal-error\|abs/LDA,X:\w
 known("C13", r"^asm_layout\|placement/[\w-]+\|C13:no-internal-error\|placement/[\w-]+:escape:ValueTypeError",
       "a program whose addresses run past $FFFF raises ValueTypeError (integer value cannot exceed 65535) instead of a diagnostic",
       {"asm": [" ORG $FFFF", "T NOP", " JMP T"]})
-known("C13", r"^asm_forms\|[^|]*\|C13:no-internal-error\|[^|]*:escape:(IndexError|ValueTypeError|AttributeError|TypeError)",
-      "operand texts that make the parser raise an internal error (e.g. `LDA []`)", {"asm": [" LDA []"]})
+known("C13", r"^asm_forms\|[^|]*/(B[A-Z]{2}|LB[A-Z]{2,3})(/equ)?\|C13:no-internal-error\|[^|]*:(B[A-Z]{2}|LB[A-Z]{2,3}):escape:ValueTypeError:",
+      "a branch instruction whose operand is not a symbol (no operand, [n], a literal below -32768) raises ValueTypeError "
+      "instead of a diagnostic", {"asm": [" BRA [5]"]})
 
 # ------------------------------------------------------------------------------------------------ cassette / disk
 known("C06", r"^tape_roundtrip\|rt/[^|]*\|C06:roundtrip\|rt/lens=[\d,]*\b0\b[\d,]*:file-count=",
       "an empty file written to a cassette image hides itself and every later file from the listing (read_file returns None for "
       "a file without data)", {"files": "cassette: [file with 0 data bytes]"}, also=("C09", "C16"))
+known("C06", r"^tape_reader_contracts\|fn/read_file\|[^|]*\|probe:post:empty-file-is-returned:empty-data-file:not-listed",
+      "same defect at its call site: CassetteFile.read_file ends with `if not data: return None`, so a well-formed file whose data "
+      "blocks carry no bytes is not returned (contract clause post:empty-file-is-returned)", {"files": "cassette stream: name-file block + EOF block"})
 known("C08", r"^disk_layout\|(write|multi)/[^|]*\|(C08:consistent|C08:stream|C08:files|C08:length-identity)\|[^|]*straddle=yes",
       "the 5-byte machine-language trailer is written physically after the data even when it straddles the end of a granule: with a "
       "non-adjacent next granule (always from granule 33 to 34) trailer bytes land outside the chain, e.g. in the directory track",
